@@ -413,7 +413,26 @@ def run(repo, res, tier):
         if not ls:
             return None
         return frozenset(x.id for x in ast.walk(ls[-1].iter) if isinstance(x, ast.Name)) - {"enumerate", "zip", "reversed", "list"}
-    ok = bool(guards) and all(any(gd.lineno < st.lineno and loop_iter(gd) == loop_iter(st) for gd in guards) for st in stores)
+    # the guard itself must be reached for every collection among the new children: the only condition allowed around it is the
+    # type test `isinstance(obj, Collection)` (extra conjuncts such as `and obj._collections` skip the `obj is self` test)
+    parents_ = {}
+    for x in ast.walk(add):
+        for ch in ast.iter_child_nodes(x):
+            parents_[id(ch)] = x
+    weak = []
+    for gd in guards:
+        p_ = parents_.get(id(gd))
+        while p_ is not None and not isinstance(p_, (ast.For, ast.FunctionDef)):
+            if isinstance(p_, ast.If) and gd is not p_:
+                t_ = p_.test
+                plain = isinstance(t_, ast.Call) and getattr(t_.func, "id", "") == "isinstance" and len(t_.args) == 2 and "Collection" in ast.unparse(t_.args[1])
+                if not plain and any(gd is y for b in p_.body for y in ast.walk(b)):
+                    weak.append(p_)
+            p_ = parents_.get(id(p_))
+    for w_ in weak:
+        res.add(Finding("E3", c.mod.rel, "BaseCollection.add", w_.test, "the self/ancestor cycle test is only reached under an extra condition: collections for which the condition "
+                        "is false (e.g. one without sub-collections) can be added to themselves", w_.lineno))
+    ok = bool(guards) and not weak and all(any(gd.lineno < st.lineno and loop_iter(gd) == loop_iter(st) for gd in guards) for st in stores)
     res.ob("E3:add:cycle-test", ok, {"rule": "E3", "guards": [norm(x.test) for x in guards], "parent_stores": [norm(s) for s in stores]})
     if not ok:
         res.add(Finding("E3", c.mod.rel, "BaseCollection.add", "parent assignment not dominated by the self/ancestor cycle test",
